@@ -3,9 +3,7 @@
    followed by the arbitrary string junk.
    result (mode 1/2): ( res flags errs meaning )
      res     "panic" | "ok" | ( event.. )           (as in C09)
-     flags   ( tz_class has_error_piece has_ast prefix_ok fmt_fails )
-             fmt_fails: some compiled date chunk has a format that chrono
-             validates but cannot render
+     flags   ( tz_class has_error_piece has_ast prefix_ok )
      errs    ( msg.. ) messages of the top-level Error chunks (each must be
              visible as "{ERROR: msg}" in the output)
      meaning ( event.. ) of the AST: when prefix_ok, the output starts with it
@@ -24,16 +22,6 @@ Fixpoint has_error (p : piece) : bool :=
 
 Definition top_errors (cs : list chunk) : list str :=
   flat_map (fun c => match c with CError m => [m] | _ => [] end) cs.
-
-Section Fails.
-  Variable ts : str -> tz -> option str.
-  Fixpoint time_fails (c : chunk) : bool :=
-    match c with
-    | CLeaf (KTime f z) _ => match ts f z with None => true | Some _ => false end
-    | CGroup _ cs _ => existsb time_fails cs
-    | _ => false
-    end.
-End Fails.
 
 (* the junk must not be pulled into the last format's fill look-ahead
    (finding F-C09-empty-spec-lookahead) *)
@@ -55,17 +43,16 @@ Definition c11_run (v : vl) : vl :=
         let an := alnum_of (d_cls d) in
         let ok := strftime_ok_of (d_times d) in
         let flags2 := [VB (existsb (tz_class ok) ps); VB (existsb has_error ps)] in
-        let ff := [VB (existsb (time_fails (time_str_of (d_times d))) (map (compile ok) ps))] in
         let errs := VL (map (fun m => VL (map VN m)) (top_errors (map (compile ok) ps))) in
         match a with
-        | VL [] => VL [res; VL (flags2 ++ [VN 0; VN 0] ++ ff); errs; VL []]
+        | VL [] => VL [res; VL (flags2 ++ [VN 0; VN 0]); errs; VL []]
         | VL [sq; jk] =>
           match dec_ast_seq sq, dec_str jk with
           | Some seq, Some junk =>
             if negb (str_eqb (print_seq seq ++ junk) (d_pattern d)) then VBad else
             VL [res;
                 VL (flags2 ++ [VN 1;
-                      VB (wf_seq al an true false seq && forallb (sem_ok ok (time_str_of (d_times d))) seq && junk_ok seq junk)] ++ ff);
+                      VB (wf_seq al an true false seq && forallb (sem_ok ok) seq && junk_ok seq junk)]);
                 errs;
                 enc_result (meaning_seq (time_str_of (d_times d)) (d_env d) seq)]
           | _, _ => VBad
